@@ -111,7 +111,7 @@ func init() {
 			}),
 			h("construct", "Full/Zeros/Ones/TensorOf hold exactly the requested values", []string{"done"}, shapeTier(0, 3, 3, 0, 4, 3, 0, nil)),
 			h("eye", "Eye(n) is the identity matrix", []string{"done"}, func(string) []Item { return items(map[string]int64{"maxn": 5}) }),
-			h("nelems", "NElems = product of Shape, and Shape = the defined shape, for the result of every kind of operation", []string{"done"}, func(string) []Item { return sItems("op", c08OpNames, items(map[string]int64{})) }),
+			h("nelems", "NElems = product of Shape, and Shape = the defined shape, for the result of every kind of operation", []string{"done"}, func(string) []Item { return opShapeItems() }),
 		},
 		Assumptions: []string{"element values are opaque solver reals; the assertions are term identities, hence value-independent",
 			"arguments are assumed valid per DESIGN Appendix A (rejection of invalid arguments is C09)"},
@@ -594,6 +594,18 @@ func init() {
 	})
 }
 
+// opShapeItems: every op on [2,2] operands, and every op that is defined for them on [2,1,2] operands.
+func opShapeItems() []Item {
+	out := sItems("op", c08OpNames, items(map[string]int64{"shape3": 0}))
+	for _, o := range c08OpNames {
+		if o == "MatMul" {
+			continue // [2,1,2] x [2,1,2] is not a valid matrix product
+		}
+		out = append(out, Item{P: map[string]int64{"shape3": 1}, S: map[string]string{"op": o}})
+	}
+	return out
+}
+
 var c08OpNames = []string{
 	"Scale", "Pow", "Exp", "Log", "Sin", "Cos", "Tan", "Sinh", "Cosh", "Tanh",
 	"Transpose", "Reshape", "UnSqueeze", "Squeeze", "Flatten", "Broadcast", "Slice",
@@ -610,7 +622,7 @@ func init() {
 		Harnesses: []Harness{
 			{Name: "C08_step", Pkg: "zzh", Func: "H_C08_step", Reach: []string{"done"},
 				What:  "one application of each of the 35 differentiable ops / Concat (2,3 operands) / 6 comparisons with every operand in a solver-chosen state {clean untracked, tracked leaf, spent tracked, computed-from-spent}: result flags, no gradient, forward values identical to the untracked run",
-				Items: func(string) []Item { return sItems("op", c08OpNames, items(map[string]int64{})) }},
+				Items: func(string) []Item { return opShapeItems() }},
 			{Name: "C08_hist", Pkg: "zzh", Func: "H_C08_hist", Reach: []string{"done"},
 				What: "solver-enumerated histories over {new leaf, Scale, Add, Gt, Concat+Slice, BackPropagate(i), ResetGradContext(i,b)} against a reference state machine (preconditions (a),(b) assumed); after every step every tensor's gradient presence / tracked / spent flags; footprint of BackPropagate",
 				Items: tiered(func() []Item {
@@ -720,16 +732,12 @@ func init() {
 }
 
 func init() {
-	var frameOps []string
-	for _, o := range c08OpNames {
-		frameOps = append(frameOps, o)
-	}
 	allChecks = append(allChecks, &Check{
 		ID: "C10", Level: "model_checking",
 		Harnesses: []Harness{
 			{Name: "C10_frame", Pkg: "zzh", Func: "H_C10_frame", Reach: []string{"done"},
 				What:  "every op (35 differentiable, Concat, 6 comparisons) on operands in any tracking state: the executor's store log shows no write to any pre-existing object; operands' shape, elements, flags, gradient and edges unchanged",
-				Items: func(string) []Item { return sItems("op", frameOps, items(map[string]int64{})) }},
+				Items: func(string) []Item { return opShapeItems() }},
 			{Name: "C10_backprop", Pkg: "zzh", Func: "H_C10_backprop", Reach: []string{"done"},
 				What:  "BackPropagate writes only gradient / spent fields; SGD.Update only the pointee; ResetGradContext only the receiver's context",
 				Items: func(string) []Item { return items(map[string]int64{}) }},
@@ -755,7 +763,7 @@ func init() {
 		Harnesses: []Harness{
 			{Name: "C20_forward", Pkg: "zzh", Func: "H_C20_forward", Reach: []string{"done"},
 				What:  "every op executed twice on the same shared operands (tracked leaves included): exact store log shows no write to any object that existed before; both runs give identical terms",
-				Items: func(string) []Item { return sItems("op", c08OpNames, items(map[string]int64{})) }},
+				Items: func(string) []Item { return opShapeItems() }},
 			{Name: "C20_layers", Pkg: "zzh", Func: "H_C20_layers", Reach: []string{"done"},
 				What:  "FC -> Softmax -> loss evaluated twice on shared tracked parameters / inputs: no shared write, identical results",
 				Items: func(string) []Item { return sItems("loss", []string{"CE"}, items(map[string]int64{})) }},
